@@ -147,7 +147,12 @@ func SerializeKey(buf *bytes.Buffer, val value.Primary, flags *option.Flags) {
 		serializeInteger(buf, in.(*value.Integer).String())
 		value.Discard(in)
 	} else if f := value.ToFloat(val); !value.IsNull(f) {
-		serializeFloat(buf, f.(*value.Float).String())
+		if f.(*value.Float).Raw() == 0 {
+			// the negative zero is equal to zero
+			serializeFloat(buf, "0")
+		} else {
+			serializeFloat(buf, f.(*value.Float).String())
+		}
 		value.Discard(f)
 	} else if dt := value.ToDatetime(val, flags.DatetimeFormat, flags.GetTimeLocation()); !value.IsNull(dt) {
 		serializeDatetime(buf, dt.(*value.Datetime).Raw())
